@@ -11,8 +11,19 @@ ENGINES = {
  "pure": dict(path="spec/Grammar.tla spec/MCGrammar.tla spec/GrammarTrace.tla spec/TagInject.tla spec/MCTagInject.tla spec/TagTrace.tla lib/pure_engine.py harness/src/pure.rs",
               props=["C14", "C15"],
               kind="TLC checks operational = declarative definitions on a bounded-exhaustive input space and emits the result tables, which are compared call by call with the real functions; observations of the real functions on larger random inputs are validated by TLC"),
+ "pp": dict(path="spec/PpCore.tla spec/PpEnv.tla spec/MCPp.tla spec/PpObs.tla lib/pp_engine.py harness/src/cases.rs",
+            props=["C01", "C12", "C13", "C16"],
+            kind="the line machine of txtpp as a TLA+ step function over strings (built on Grammar.tla and TagInject.tla); TLC evaluates it on every source over a line catalogue, checks the declarative statements of C12/C13/C16 and prints the expected bytes, which are compared with real builds; observations of larger random sources are validated by TLC"),
 }
 CHECKS = {
+ "C01": ("pp", "model_checking", "TLC evaluates PpCore.tla (README semantics) on every source of <=3 (thorough: 4) catalogue lines x LF/CRLF x trailing on/off and prints the expected output bytes, temp files, commands and verdict; every case is built for real (library; a sample through the CLI) and compared byte for byte; random longer sources are observed and validated by TLC (PpObs.tla)", "2.3, 5 C01",
+         "39-line catalogue and the model's command language (echo/cat/true/false/sh script); domain D1-D15 of DESIGN 4.3", "TLA+ spec PpCore.tla evaluated by TLC on a bounded-exhaustive source space; conformance: expected bytes replayed on real builds + TLC validation of recorded observations (PpObs.tla)"),
+ "C12": ("pp", "model_checking", "TLC checks on every enumerated source that each terminator of output and temp files is the file's (invariant C12 on PpCore.tla); real builds of the same sources rendered with mixed LF/CRLF terminators on later lines, CRLF include files and CRLF command output are scanned byte by byte and compared with the prediction", "2.3, 5 C12",
+         "domain D1 (CR only before LF)", "TLA+ spec PpCore.tla (invariant C12) + byte scan of real builds against the specification's prediction"),
+ "C13": ("pp", "model_checking", "TLC checks outOn = outOff or outOff + LE, equal temps/commands/verdict and the last-text-line rule on every enumerated source (invariant C13); real builds of every enumerated source with the option on and off are compared with each other and with the predictions", "2.3, 5 C13",
+         "D15: sources including a .txtpp-backed dependency are compared with the prediction only", "TLA+ spec PpCore.tla (invariant C13) + paired real builds compared with the specification"),
+ "C16": ("pp", "model_checking", "TLC checks identity on directive-free sources and the write-escape round trip on every enumerated source (C16Identity, C16RoundTrip); real builds: every directive-free text over a look-alike alphabet, random texts escaped by a generated write block, order of ordinary lines", "2.3, 5 C16",
+         "alphabets in evidence", "TLA+ spec PpCore.tla (invariants C16Identity/C16RoundTrip) + real builds of generated texts"),
  "C02": ("sched", "model_checking", "TLC explores every state of Sched.tla (NoBadRead, SuccessComplete: all digraphs, input lists, interleavings within the constants); the real coordinator is driven through every gate-level schedule of projects materialising the same digraphs with stale outputs pre-planted, outputs compared with the one-at-a-time dependency-order build, hook traces validated against Sched.tla", "2.4, 3.2-3.4, 5 C02",
          "bounded: <=3 files exhaustive on the code, <=4 in TLC; interleavings inside a pass body only by free-running runs; trusts the hook placement (begin / before send / poll / recv)",
          "TLA+ spec Sched.tla model-checked with TLC; conformance: exhaustive controlled-schedule replay of the real coordinator + TLC trace validation (SchedTrace.tla)"),
